@@ -209,10 +209,15 @@ func (m *Machine) choose(n int) int {
 
 // concretize forks over the feasible values of a symbolic int.
 func (m *Machine) concretize(i Int, what string) int {
+	return m.concretizeN(i, what, 64)
+}
+
+// concretizeN forks on the feasible values of i, at most max of them.
+func (m *Machine) concretizeN(i Int, what string, max int) int {
 	if i.T == nil {
 		return i.AsInt()
 	}
-	for n := 0; n < 70; n++ {
+	for n := 0; n < max+6; n++ {
 		var val uint64
 		if len(m.taken) < len(m.prefix) {
 			// replaying: the decision is recorded, value is needed only on "equal"
@@ -252,7 +257,7 @@ func (m *Machine) concretize(i Int, what string) int {
 		m.assume(eq)
 		return Int{Bits: i.Bits, Signed: i.Signed, C: val & mask(i.Bits)}.AsInt()
 	}
-	panic(Unsupported{"concretize: more than 64 feasible values for " + what})
+	panic(Unsupported{fmt.Sprintf("concretize: more than %d feasible values for %s", max, what)})
 }
 
 func (m *Machine) get(fr *frame, v ssa.Value) Val {
@@ -846,11 +851,19 @@ func (m *Machine) concretizeIndex(idx Int, n int) int {
 	if idx.T == nil {
 		return idx.AsInt()
 	}
+	if idx.Bits < 64 && uint64(n) > mask(idx.Bits) {
+		// the length does not fit the index type (a [256]T indexed by a byte):
+		// only a negative signed index can be out of range
+		if idx.Signed && m.decide(m.app(0, "bvslt", idx.T, bvConst(0, idx.Bits))) {
+			return -1
+		}
+		return m.concretizeN(idx, "index", 256)
+	}
 	op := "bvuge" // as unsigned: negative values are ≥ n too
 	if m.decide(m.app(0, op, idx.T, bvConst(uint64(n), idx.Bits))) {
 		return -1
 	}
-	return m.concretize(idx, "index")
+	return m.concretizeN(idx, "index", 256)
 }
 
 func (m *Machine) slice(x *ssa.Slice, fr *frame) Val {
